@@ -414,7 +414,8 @@ class SoftAlignment(Alignment):
 
         for i, unitary_align in enumerate(self):
             for annotator, unit in unitary_align.n_tuple:
-                if unit is not None:
+                # (annotator, unit) couples that are not in the continuum are not counted, as in Alignment.check
+                if unit is not None and unit in unit_occurences.get(annotator, ()):
                     unit_occurences[annotator][unit] += 1
 
         for annotator, factors in unit_occurences.items():
